@@ -3,6 +3,8 @@ From Coq Require Import List NArith String Bool Sorted.
 From Gen Require Import Tables.
 From Model Require Import Base Names Flt Matches Detect.
 From Proofs Require Import FloatLaws DetectRestrict DetectPartition RangesFacts.
+From Model Require Import F32.
+From Proofs Require Import F32Laws.
 Import ListNotations.
 Open Scope N_scope.
 
@@ -62,3 +64,10 @@ Theorem C10_unicode_ranges :
             /\ forall r, In r (unicode_ranges_of t) <-> exists c, In c t /\ unicode_range c = Some r.
 Proof. intro t. split; [apply ranges_sorted|]. split; [apply ranges_nodup|apply ranges_union]. Qed.
 Print Assumptions C10_unicode_ranges.
+
+(* binary32 instance: no float hypothesis left *)
+Theorem C10_partition_binary32 :
+  forall (R : oracles F32ops) b cfg r, b <> [] -> len b <= TOO_BIG_SEQUENCE -> from_bytes F32ops R b cfg = Ok r ->
+    exists inc exc, Part F32ops (make_ctx F32ops R b cfg inc exc) r.
+Proof. intros R. exact (C10_partition F32ops R F32_CmpLaws). Qed.
+Print Assumptions C10_partition_binary32.
